@@ -705,6 +705,9 @@ def explicit_params_rules(prog, chk, pid):
 
 
 def run(prog, chk, tier):
+    from rules import state as _state
+
+    _state.shared_state_rules(prog, chk, "C19", _state.ECDSA_MODULES)
     chk.explanation = ("The decoders of the vendored ECC library are interpreted with the DER primitives, byte helpers and point decoders inlined; explicit raises, assertions and "
                        "implicit raisers are collected with their handlers; implicit ones and assertions are discharged by Fourier-Motzkin entailment over path facts (length "
                        "guards, slice-length definitions, floor-division axioms, non-negativity) -- what remains must be an ecdsa-defined class or a ValueError. Sibling rule: "
